@@ -14,23 +14,23 @@ NOTE = ("Trusted base: go/ssa construction (x/tools v0.29.0), the executor's ins
 CLAIMED = {
  "C01": ("7/C01", "all dates of years 0000-9999 x {extended, basic}: formatter output is the canonical zero-padded text and every in-package input path (bytes, string, UnmarshalText) returns the same date; MarshalText/String/%s/%e/%b agree; 5-digit years (thorough: 6-9) under a symbolic MaxInputLength. encoding/json and encoding/xml plumbing is outside."),
  "C02": ("7/C02", "all n < 3000 (thorough: < 13000) x all 128 flag sets: the numeral is the unique canonical one, parses back to n (bytes and string) and is Valid; MarshalText/String/%s under every DefaultFormat and the %R %r %L %l verbs for n < 2000."),
- "C03": ("7/C03", "every byte string up to length 8 (thorough 11) over all 256 byte values: accepted iff an independent BNF scanner accepts under the entry point's tag rule, numbers equal, formatting reproduces the input, reject => zero Ver and typed error; 19/20/21-digit components at each position against 2^64-1; Valid() <=> round trip for pre-release/build strings up to 3+2 bytes."),
+ "C03": ("7/C03", "every byte string up to length 8 (thorough 10) over all 256 byte values: accepted iff an independent BNF scanner accepts under the entry point's tag rule, numbers equal, formatting reproduces the input, reject => zero Ver and typed error; 19/20/21-digit components at each position against 2^64-1; Valid() <=> round trip for pre-release/build strings up to 4+2 bytes (thorough 5+2), also judged against the grammar itself."),
  "C04": ("7/C04", "all 2^64 sizes x the 8 combinations of the three Disable* switches: MarshalText->UnmarshalText, MarshalJSON->UnmarshalJSON (object, string and number forms through a token-level model of encoding/json), String, PrettyString and BytesString -> DefaultParser return the same size without error. Nesting in encoding/json containers (struct fields, slices, maps) is outside: reflection-driven standard-library code that hands MarshalJSON's bytes through."),
  "C05": ("7/C05", "all 256^36 and 256^45 inputs x 4 rule sets against an independent predicate, every other length 0..64 rejected, all 2^128 IDs: exact 8-4-4-4-12 layout, round trip in lower/upper case with/without URN, Version/Variant bit fields."),
- "C06": ("7/C06", "all pairs of valid pre-release strings up to 3+3 bytes (thorough 5+5) over every ASCII byte, outside the documented a01/a1 departure: DefaultComparePreRelease, Ver.Compare and Ver.Latest equal an identifier-wise section-11 oracle for arbitrary cores and build metadata; cores with full-range uint64 components; the specification's own example chain through CompareVersion/Compare."),
+ "C06": ("7/C06", "all pairs of valid pre-release strings up to 3+3 bytes (thorough 4+4) over every ASCII byte, numeric identifiers of 19-22 digits, outside the documented a01/a1 departure: DefaultComparePreRelease, Ver.Compare and Ver.Latest equal an identifier-wise section-11 oracle for arbitrary cores and build metadata; cores with full-range uint64 components; the specification's own example chain through CompareVersion/Compare."),
  "C07": ("7/C07", "all pairs of dates in years 0000-9999 (thorough: +-999,999,999): exactly one of Before/Equal/After and it matches chronological order; calendar lemmas (two independent ordinal closed forms agree, order key = ordinal order, successor = +1); Sub = days x 24h for all pairs within +-106751 days; Time()/FromTime()/Scan/Value glue incl. fixed zones -12h..+14h. Add, AddDuration and DaysBetween are outside the registered claim (VCs undecided, see DESIGN.md)."),
- "C08": ("7/C08", "New[N] for all 12 numeric kinds over their full value range (all float32/float64 bit patterns incl. NaN/Inf) x 22 unit strings + arbitrary unit strings up to 3 bytes; text: every byte string up to length 5 (thorough 8) against the documented grammar, digit templates to 21 digits with every separator kind; Bytes[N] for all 2^64 sizes x 12 kinds."),
+ "C08": ("7/C08", "New[N] for all 12 numeric kinds over their full value range (all float32/float64 bit patterns incl. NaN/Inf) x 22 unit strings + arbitrary unit strings up to 3 bytes; text: every byte string up to length 5 (thorough 6) against the documented grammar, digit templates of 1-3, 18 and 20 digits (thorough: 4-6, 10, 19-21) with every separator kind; Bytes[N] for all 2^64 sizes x 12 kinds."),
  "C09": ("7/C09", "every byte string of length 0..10 (thorough: to 15 with symbolic MaxInputLength) x rule: accepted iff it names a real calendar day in the documented layouts, components as written, typed error and zero value otherwise."),
- "C10": ("7/C10", "every byte string of length 0..8 (thorough 13): accepted iff an independent split-enumerating evaluator accepts, same value, Valid <=> parse, case invariance under arbitrary letter-case flips (length <= 6, thorough 10)."),
+ "C10": ("7/C10", "every byte string of length 0..8 (thorough 11): accepted iff an independent split-enumerating evaluator accepts, same value, Valid <=> parse, case invariance under arbitrary letter-case flips (length <= 6, thorough 8)."),
  "C11": ("7/C11", "all valid dates with |year| <= 999,999,999: 7-byte layout and round trip; every byte string of each length 0..16: documented errors, receiver untouched on error, accepted => real calendar date with the written components, real dates accepted."),
  "C12": ("7/C12", "token level: every object of up to 2 members (thorough 3) drawn from 8 member kinds (value/unit in different key cases, unknown scalar and nested members, wrong-typed members), all 16 rule subsets, MaxObjectKeys 0..5, symbolic value digits and unit bytes, against an order-independent oracle incl. the documented sentinel when exactly one rejection class applies; byte level (JSON token model): number/string/object/array templates x 7 kinds of trailing data x rules, and every truncation of three documents."),
  "C13": ("7/C13", "all 2^64 sizes: Shorten is exact, binary-unit, maximal; DefaultFormatter/String/PrettyString/PrettyHTML output equals digits grouped in threes + separator + unit for the 4 flag values."),
- "C14": ("7/C14", "all pairs of versions with valid pre-releases up to 3+3 bytes (thorough 5+5), full-range cores, arbitrary build strings: result in {-1,0,1}, antisymmetry, reflexivity, build ignored, equal => 0, Latest returns an argument and never the lower; Next* panic iff component = 2^64-1 (through recover) and otherwise a plain release strictly above; string helpers agree with value comparison and fail exactly on invalid text (all byte strings up to length 6, thorough 8)."),
+ "C14": ("7/C14", "all pairs of versions with valid pre-releases up to 3+3 bytes (thorough 4+4), full-range cores, arbitrary build strings: result in {-1,0,1}, antisymmetry, reflexivity, build ignored, equal => 0, Latest returns an argument and never the lower; Next* panic iff component = 2^64-1 (through recover) and otherwise a plain release strictly above; string helpers agree with value comparison and fail exactly on invalid text (all byte strings up to length 6, thorough 8)."),
  "C15": ("7/C15", "all triples of valid dates in years 0000-9999 and the four nil combinations: error iff from after to (with the sentinel), Contains iff inside the inclusive interval, bounds kept after the caller's variables change."),
- "C16": ("7/C16", "the five DefaultFormatters: symbolic prefix bytes (all 256 values) of length 0..3 (thorough 8) with spare capacity 0, 1, exact-fit, 64: prefix kept, suffix equals the nil-buffer output, caller's backing array untouched."),
+ "C16": ("7/C16", "the five DefaultFormatters: symbolic prefix bytes (all 256 values) of length 0..3 (thorough 8; uu also 9 and 13) with spare capacity 0, 1, exact-fit, 64: prefix kept, suffix equals the nil-buffer output, caller's backing array untouched."),
  "C17": ("7/C17", "symbolic receiver pre-state (any field values, which subsumes values decoded by earlier calls) and every byte string up to the per-type bound (uu 30..46, date 0..11, roman 0..7, sem 0..7, size text 0..5, date binary 0..9, Scan over five dynamic types): failed UnmarshalText/UnmarshalBinary/Scan leave the receiver bit-identical, input bytes unchanged, string and []byte instantiations agree on value and on the fields the error message is built from, parsed values do not alias the input buffer."),
- "C18": ("7/C18", "no panic (every runtime-panic site and explicit panic is a verification condition) for every byte string up to the per-package bound incl. non-ASCII and invalid UTF-8, under a fully symbolic rule word and MaxInputLength >= 0, through every text entry point of date, roman, sem, size (text rules) and uu, the comparator and Ver.Valid on arbitrary field strings up to 3+3 bytes (thorough 5+5); limit contract with symbolic MaxInputLength at lengths 1..n, default-1, default, default+1 and 10x default (long inputs with concrete valid filler). size with JSON rules is covered on templates only (C12); memory consumption is not modelled."),
- "C19": ("7/C19", "all 2^126 pairs of 63-bit draws: version 4 / variant 1; each of the 122 free bits can be 0 and 1 (thorough: adjacent pairs take all four values); lock discipline: see evidence (schedule encoding)."),
+ "C18": ("7/C18", "no panic (every runtime-panic site and explicit panic is a verification condition) for every byte string up to the per-package bound incl. non-ASCII and invalid UTF-8, under a fully symbolic rule word and MaxInputLength >= 0, through every text entry point of date, roman, sem, size (text rules) and uu, the comparator and Ver.Valid on arbitrary field strings up to 3+3 bytes (thorough 4+4); limit contract with symbolic MaxInputLength at lengths 1..n, default-1, default, default+1 and 10x default (long inputs with concrete valid filler). size with JSON rules is covered on templates only (C12); memory consumption is not modelled."),
+ "C19": ("7/C19", "all 2^126 pairs of 63-bit draws: version 4 / variant 1; each of the 122 free bits can be 0 and 1 (thorough: adjacent pairs take all four values); lock discipline: the recorded lock/unlock/generator-use/package-variable events of RandomID, two threads, every interleaving: no two conflicting accesses unordered by happens-before (a racy schedule is confirmed with go test -race before it is reported)."),
  "C20": ("7/C20", "the six helpers (Marshal/Unmarshal x Text/Binary/JSON) on scripted marshaler/unmarshaler types (value and pointer receivers): one case with every combination of behaviour (right data, other data, error, error with data, panic) x error predicate (none, AnyError, Error(matching), Error(other), ErrorHasPrefix, ErrorHasSuffix) x constraint (none, OnlyMarshal, OnlyUnmarshal) x before/after hooks (nil, pass, fail, panic), symbolic data bytes: a failure is recorded iff an independent per-case oracle says the case is not satisfied, no panic escapes; a type lacking the interface gives one failure and FailNow; in a three-case list every failing applicable case is reported once and the other direction's case is ignored. testify's assertions are contract stubs (documented result; Errorf exactly on false)."),
 }
 NA_REASON = "check not built yet (framework under construction; see DESIGN.md section 10)"
